@@ -20,7 +20,7 @@ ASSUMPTIONS = ['"recognised page": every line has baseline (2 px .. block width,
                'ALTO TextLine elements carry no id: lines are matched by order within their block']
 N = {'quick': 800, 'thorough': 40000}
 CLASSES = ['page', 'page', 'page_whitespace', 'page_arabic', 'page_conf', 'order_conversion', 'page_short_lines', 'page_long_lines']
-REQUIRED = ['decomposed_lines', 'lines_with_an_outline_without_extent', 'aligned_lines_over_1000_frames', 'aligned_lines_with_offset_window', 'astral_lines', 'entity_like_lines', 'short_baseline_lines', 'exports', 'lines_expected', 'aligned_lines', 'fallback_lines', 'words_compared', 'nonascii_space_lines', 'arabic_lines', 'arabic_fallback_lines', 'dropped_lines',
+REQUIRED = ['arabic_lines_in_presentation_forms_only', 'decomposed_lines', 'lines_with_an_outline_without_extent', 'aligned_lines_over_1000_frames', 'aligned_lines_with_offset_window', 'astral_lines', 'entity_like_lines', 'short_baseline_lines', 'exports', 'lines_expected', 'aligned_lines', 'fallback_lines', 'words_compared', 'nonascii_space_lines', 'arabic_lines', 'arabic_fallback_lines', 'dropped_lines',
             'printspace_checked', 'reimports', 'conversions_checked']
 NS = '{http://www.loc.gov/standards/alto/ns-v2#}'
 CH = list("abcdefgh.,-") + [' '] + list('ابتثج')
@@ -121,7 +121,8 @@ def gen(rng, i, ctx):
             words = []
             for _ in range(int(rng.integers(1, 7)) if not (cls == 'page_long_lines' and l == 0) else int(rng.integers(70, 120))):
                 if script == 'arabic' and rng.random() < 0.7:
-                    words.append(''.join('ابتثج'[int(x)] for x in rng.integers(0, 5, size=int(rng.integers(1, 5)))))
+                    pool = 'ابتثج' if (r + l) % 3 else '\ufe8f\ufe97\ufe9b\ufb56\ufedf'          # base letters, or presentation forms only (text from an old OCR system or a PDF)
+                    words.append(''.join(pool[int(x)] for x in rng.integers(0, 5, size=int(rng.integers(1, 5)))))
                 else:
                     words.append(''.join('abcdefgh.,-Z9'[int(x)] for x in rng.integers(0, 13, size=int(rng.integers(1, 6)))))
             # words outside the engine charset: astral-plane characters, and text that looks like an XML / HTML entity
@@ -303,7 +304,11 @@ def check(case, mon, ctx):
             t = l['text']
             got = [s.get('CONTENT') for s in le.iter(NS + 'String')]
             want = t.split()
-            arabic = ah.is_arabic_line(t)
+            # an Arabic-script line: some word starts with a character of the Arabic blocks, incl. the presentation forms (decided here, not by the code under test)
+            arabic = any(w_ and (0x0600 <= ord(w_[0]) <= 0x06FF or 0x0750 <= ord(w_[0]) <= 0x077F or 0xFB50 <= ord(w_[0]) <= 0xFBC1 or 0xFBD3 <= ord(w_[0]) <= 0xFD3F
+                                 or 0xFD50 <= ord(w_[0]) <= 0xFD8F or 0xFE70 <= ord(w_[0]) <= 0xFEFC) for w_ in t.split())
+            if arabic and not any(0x0600 <= ord(ch) <= 0x06FF for ch in t):
+                mon.count('arabic_lines_in_presentation_forms_only')
             if arabic:
                 mon.count('arabic_lines')
                 if not aligned:
